@@ -625,7 +625,12 @@ impl Session {
         #[cfg(feature = "rdf")]
         self.rdf_store.commit_tx(tx_id);
 
-        self.tx_manager.commit(tx_id).map(|_| ())
+        let commit_epoch = self.tx_manager.commit(tx_id)?;
+
+        // Keep the store's own epoch in step with the transaction manager: entities are
+        // versioned with manager epochs, and the store-epoch read paths must see them.
+        self.store.sync_epoch(commit_epoch);
+        Ok(())
     }
 
     /// Aborts the current transaction.
